@@ -66,7 +66,7 @@ Convert(kind, text, next, p) ==
 
 \* the switch on duty.Type; p is the map iteration order of the conversion loops
 Call(p) ==
-  /\ pc = "idle" /\ p \in PermSeqs(Keys) /\ UNCHANGED case
+  /\ pc = "idle" /\ UNCHANGED case
   /\ CASE duty = "attester" -> Convert("att", "invalid attestation", "attcheck", p)
        [] duty = "aggregator" -> Convert("agg", "invalid aggregate and proof", "list", p)
        [] duty = "sync_message" -> Convert("msg", "invalid sync committee message", "list", p)
